@@ -151,11 +151,21 @@ def gen_leaves(sc, protos):
     d = sc.gen_dir()
     lines = ["/* generated from the prototypes in include/xraylib.h, xraylib-auger.h, src/xrf_cross_sections_aux*.h */",
              "#ifndef LEAVES_H", "#define LEAVES_H", '#include "vcommon.h"',
+             "#define V_CONCRETE(k) ((1 + ((((k) % 7) + 7) % 7)) * 0.125)",
              '#include "xrf_cross_sections_aux.h"', '#include "xrf_cross_sections_aux-private.h"']
     for name, (al, haserr) in sorted(protos.items()):
         types = ", ".join(t for t, _ in al) or "void"
         params = ", ".join(chr(97 + i) for i in range(len(al)))
-        lines.append("#ifdef VERIF_CBMC")
+        # refutation acceleration (DESIGN 3.6): every leaf becomes a *concrete* function of its integer macro arguments
+        # (exact multiples of 1/8 in (0,1]; Z and the continuous arguments are ignored), so that both sides of an identity
+        # constant-fold and a changed identity is refuted without any float search.  A model found under an extra
+        # constraint is still a model of the original obligation; only FAILURE answers of such a run are used.
+        kexpr = " + ".join("%d * (%s)" % (w, chr(97 + i)) for (i, (t, an)), w in zip(enumerate(al), (3, 5, 7, 11, 13, 17, 19, 23, 29, 31, 37, 41))
+                          if t == "int" and an != "Z") or "0"
+        lines.append("#if defined(VERIF_CBMC) && defined(V_RESTRICT_LEAVES)")
+        lines.append("#define LEAF_%s(%s) V_CONCRETE(%s)" % (name, params, kexpr))
+        lines.append("#define LEAFOK_%s(%s) 1" % (name, params))
+        lines.append("#elif defined(VERIF_CBMC)")
         lines.append("double __CPROVER_uninterpreted_v_%s(%s);" % (name, types))
         lines.append("_Bool __CPROVER_uninterpreted_ok_%s(%s);" % (name, types))
         lines.append("#define LEAF_%s(%s) __CPROVER_uninterpreted_v_%s(%s)" % (name, params, name, params))
@@ -190,23 +200,29 @@ def gen_stubs(sc, protos, names, tag, facts_override=None, with_setter=True):
         fact = (facts_override or {}).get(name, leaf_fact(name))
         if haserr:
             out.append("double %s(%s%sxrl_error **error) {" % (name, sig, ", " if sig else ""))
+            out.append("#ifdef V_RESTRICT_LEAVES")
+            out.append("  _Bool ok = 1; double v = LEAF_%s(%s);" % (name, args))
+            out.append("#else")
             out.append("  _Bool ok = __CPROVER_uninterpreted_ok_%s(%s);" % (name, args))
             out.append("  double v = __CPROVER_uninterpreted_v_%s(%s);" % (name, args))
+            out.append("#endif")
             # the value is returned on both outcomes (a failing call returns the 0 sentinel): no if-then-else is
             # wrapped around the UF leaf, so arithmetic over leaves stays syntactically identical in code and spec
             out.append("  __CPROVER_assume(ok ? (%s) : (v == 0.0));" % fact)
             if name in OK_FACTS:
                 out.append("  __CPROVER_assume(%s);" % OK_FACTS[name])
-            out.append("  V_STUB_RESTRICT(v);")
             out.append("  if (!ok) stub_fail(error);")
             out.append("  return v;")
             out.append("}")
         else:
             # internal helpers without an error parameter (PK_*, PL1_* ...): 0 means "no vacancies", any value >= 0
             out.append("double %s(%s) {" % (name, sig))
+            out.append("#ifdef V_RESTRICT_LEAVES")
+            out.append("  double v = LEAF_%s(%s);" % (name, args))
+            out.append("#else")
             out.append("  double v = __CPROVER_uninterpreted_v_%s(%s);" % (name, args))
+            out.append("#endif")
             out.append("  __CPROVER_assume(v >= 0.0 && !__CPROVER_isinfd(v));")
-            out.append("  V_STUB_RESTRICT(v);")
             out.append("  return v;")
             out.append("}")
         used.append("%s: assumed when ok: %s%s" % (name, fact if haserr else "v >= 0 finite",
